@@ -61,7 +61,7 @@ def apply_op(hs, op):
                 ret = hs.refine(marked)
         else:
             ret = hs.refine_region(op['lv'], mk_pred(op['pred']))
-        return 'Ok', {int(lv): tl(cells) for lv, cells in ret.items() if len(cells)}
+        return 'Ok', {int(lv): tl(set(tuple(c) for c in cells)) for lv, cells in ret.items() if len(cells)}
     except Exception as e:  # noqa
         return errclass(e) + ': ' + str(e)[:120], None
 
@@ -94,7 +94,7 @@ def matrix_numbers(hs, full):
     return out
 
 
-def observe(hs, status, ret, prevs, full, qrng):
+def observe(hs, status, ret, prevs, full, qrng, light=False):
     o = {'status': status, 'L': int(hs.numlevels)}
     L = hs.numlevels
     o['levels'] = [[tl(hs.hmesh.active[l]), tl(hs.hmesh.deactivated[l]), tl(hs.actfun[l]), tl(hs.deactfun[l])]
@@ -156,7 +156,7 @@ def observe(hs, status, ret, prevs, full, qrng):
             qs.append({'l': l, 'k': k, 'cells': tl(cells), 'funcs': tl(funcs), 'error': errclass(e)})
     o['queries'] = qs
     try:
-        o['mat'] = matrix_numbers(hs, full)
+        o['mat'] = None if light else matrix_numbers(hs, full)
     except Exception as e:  # noqa
         o['mat_error'] = errclass(e) + ': ' + str(e)[:160]
     return o
@@ -192,7 +192,7 @@ def run_history(cfg, ops, full, seed=0, observe_all=True):
     return {'ops': ops, 'obs': obs}
 
 
-def run_tree(cfg, depth, max_nodes, seed, full):
+def run_tree(cfg, depth, max_nodes, seed, full, light=False, root_masks=None):
     """All histories of `depth` calls whose marks are the non-empty subsets of the currently
     active cells (canonical order, subset = bit mask); the container type rotates with the node
     number.  When the number of nodes would exceed max_nodes the subsets of a call are sampled
@@ -207,7 +207,9 @@ def run_tree(cfg, depth, max_nodes, seed, full):
         n = len(act)
         total = (1 << n) - 1
         budget = max(1, (max_nodes - len(nodes)))
-        if total <= budget and (d == 1 or total <= 64 or full):
+        if root_masks is not None and not ops:
+            masks = root_masks
+        elif total <= budget and (d == 1 or total <= 64 or full):
             masks = range(1, total + 1)
         else:
             # not exhaustive at this node: single cells, the full set, and sampled subsets
@@ -228,7 +230,7 @@ def run_tree(cfg, depth, max_nodes, seed, full):
             status, ret = apply_op(h2, op)
             qrng = random.Random(counter[0])
             prevs = [states[-1]] + ([states[0]] if len(states) > 1 else [])
-            o = observe(h2, status, ret, prevs, full, qrng)
+            o = observe(h2, status, ret, prevs, full, qrng, light=light and counter[0] % 10 != 0)
             ops2 = ops + [op]
             nodes.append({'ops': ops2, 'obs': [None] * len(ops) + [o]})
             if d > 1 and status == 'Ok':
@@ -311,7 +313,7 @@ def main():
             if case['mode'] == 'history':
                 nodes = [run_history(cfg, case['ops'], full, seed=case.get('seed', 0))]
             elif case['mode'] == 'tree':
-                nodes, info = run_tree(cfg, case['depth'], case['max_nodes'], case.get('seed', 0), full)
+                nodes, info = run_tree(cfg, case['depth'], case['max_nodes'], case.get('seed', 0), full, light=bool(case.get('light')), root_masks=case.get('root_masks'))
             else:
                 nodes = [run_random(cfg, case['seed'], case['nops'], case.get('cap', 150), full)]
         except Exception as e:  # noqa
